@@ -36,6 +36,7 @@ RULE = (
 ASSUMPTIONS = [
     "fractions are those of the same tree computed in the checker process from the same files and options",
     "numbers are compared at 1e-12 relative (cells are doubles)",
+    "the LONG / SHORT cell is judged against the flag re-derived from the two timestamps of the fraction (365 whole days for the US, never for IE)",
 ]
 SETTINGS: Dict[str, Dict[str, Any]] = {
     "quick": {"cases": 160, "budget_s": 60, "minimums": {"rows_checked": 1000, "nontrivial": 40, "sheets_checked": 400, "size_sweep_cases": 36}, "required_tags": {"tag_sheets": sorted(set(TAX_SHEET_OF_TYPE.values())), "tag_country": ["us", "ie"]}},
@@ -45,6 +46,15 @@ SETTINGS: Dict[str, Dict[str, Any]] = {
 
 def single_type_history(rng: random.Random, asset: str) -> Dict[str, Any]:
     b = families.HB(asset=asset)
+    if rng.random() < 0.3:
+        # a lot of 1 January of a leap year sold on 31 December of the same year at the same or a later time of day: 365 whole days
+        # within one calendar year
+        year = rng.choice((2016, 2020, 2024))
+        hour, minute = rng.randint(0, 22), rng.randint(0, 59)
+        b.acquire(families.T(year, 1, 1, hour, minute), 10, 100)
+        b.dispose(families.T(year, 12, 31, hour, minute) + timedelta(seconds=rng.choice((0, 0, 1, 3000))), 2, 150, ttype=rng.choice(("SELL", "GIFT", "FEE")))
+        b.dispose(families.T(year, 12, 30, hour, minute), 1, 140)
+        return b.done(rng, shuffle=True)
     t = families.T(rng.randint(2016, 2021), rng.randint(1, 12), rng.randint(1, 28))
     b.acquire(t, 10, 100)
     ttype = rng.choice(OUT_TYPES)
@@ -196,7 +206,9 @@ def _one(ctx: Any, expected: Expected, case: Dict[str, Any], name: str) -> None:
                     frac(g.taxable_event_fiat_amount_with_fee_fraction),
                     frac(g.fiat_cost_basis) if lot is not None else None,
                     frac(g.fiat_gain),
-                    "LONG" if g.is_long_term_capital_gains() else "SHORT",
+                    # the flag is re-derived from the two timestamps (C05's rule: whole days elapsed >= 365 for the US, never for IE), not
+                    # taken from the tree under test
+                    "LONG" if (lot is not None and country == "us" and (event.timestamp - lot.timestamp).days >= 365) else "SHORT",
                     event_note,
                     lot_note,
                     str(event.timestamp),
